@@ -287,10 +287,26 @@ class Flow:
         """dependence sources of reading field #i of the struct / tuple stored in `place`"""
         if self.b.kind == "closure" and place.local == 1 and place.proj:
             pr = place.proj[1:] if place.proj[0] == "*" else place.proj
+            # a struct captured by reference is read through one more deref: `*(*_1).^options`
+            while len(pr) > 1 and pr[-1] == "*":
+                pr = pr[:-1]
             if len(pr) == 1 and isinstance(pr[0], dict) and pr[0].get("f", "").startswith("^") and FIELD_SENSITIVE:
                 return {("UPVF", pr[0]["f"][1:], i)}
             return self._place_reads(place)
         if place.has_deref():
+            # `*r` where r is a copy of the reference a closure captured (`r = (*_1).^options`): the struct behind it is
+            # the captured variable, field by field
+            if FIELD_SENSITIVE and self.b.kind == "closure" and all(e == "*" for e in place.proj):
+                d = self.single_def(place.local)
+                rv = getattr(d, "rv", None) if d is not None else None
+                if rv is not None and rv.k in ("use", "ref", "copyderef"):
+                    src = rv.ops[0].place if rv.k == "use" and rv.ops else rv.place
+                    if src is not None and src.local == 1 and any(isinstance(e, dict) and str(e.get("f", "")).startswith("^") for e in src.proj):
+                        pr = src.proj[1:] if src.proj and src.proj[0] == "*" else src.proj
+                        while len(pr) > 1 and pr[-1] == "*":
+                            pr = pr[:-1]
+                        if len(pr) == 1 and isinstance(pr[0], dict):
+                            return {("UPVF", pr[0]["f"][1:], i)}
             return self._place_reads(place)
         if not place.proj and FIELD_SENSITIVE:
             return {("LF", place.local, i)}
